@@ -383,7 +383,10 @@ class Project:
 
         """
         with self._lock:
-            self.document.reset(new_doc)
+            document = self.document
+            # Resetting a collection with itself empties it if it has not loaded its data yet.
+            if new_doc is not document:
+                document.reset(new_doc)
 
     @property
     def doc(self):
